@@ -184,7 +184,7 @@ class Reaching:
       return d.value
     return None
 
-  def expand(self, node, expr, depth=8, keep=(), aliases=False):
+  def expand(self, node, expr, depth=8, keep=(), aliases=False, pathenv=None):
     """Substitute local names by their unique reaching assignment, recursively
     (each RHS resolved at its own definition node).  Returns (ast, free) where
     free maps each remaining local name to the frozenset of ids of the CFG
@@ -201,6 +201,12 @@ class Reaching:
         d = rd.single_def(at, e.id)
         if d is not None and d.how == 'assign' and d.value is not None and depth > 0 and (aliases or e.id not in rd.mutated):
           return sub(clone(d.value), d.node, depth - 1)
+        if d is None and pathenv is not None and at is node and e.id in pathenv and depth > 0 and e.id not in rd.mutated:
+          # several definitions reach, but on the path under consideration the last one is known
+          pd, penv = pathenv[e.id]
+          if pd.how == 'assign' and pd.value is not None:
+            saved = pathenv
+            return rd.expand(pd.node, pd.value, depth - 1, keep, aliases, penv)[0]
         ds = rd.defs_at(at, e.id)
         if ds:
           free[e.id] = free.get(e.id, frozenset()) | frozenset(x.node.id for x in ds)
@@ -245,6 +251,17 @@ def fold(e):
   if not isinstance(e, ast.AST):
     return e
   e = _map_children(e, fold)
+  if isinstance(e, ast.Subscript) and isinstance(e.value, ast.DictComp) and len(e.value.generators) == 1:
+    # {k: V(k) for k in IT}[K]  ->  V(K)   (K in IT, else the subscript raises)
+    gen = e.value.generators[0]
+    if isinstance(gen.target, ast.Name) and not gen.ifs and isinstance(e.value.key, ast.Name) and e.value.key.id == gen.target.id:
+      kname, K = gen.target.id, e.slice
+
+      def subk(x):
+        if isinstance(x, ast.Name) and x.id == kname and isinstance(x.ctx, ast.Load):
+          return clone(K)
+        return _map_children(x, subk)
+      return subk(clone(e.value.value))
   if isinstance(e, ast.Subscript) and isinstance(e.value, (ast.List, ast.Tuple)) \
       and not any(isinstance(x, ast.Starred) for x in e.value.elts):
     elts = e.value.elts
